@@ -28,9 +28,10 @@ def custom_cmp_bounded(ip, runner):
 def build(chk, ip, runner):
     chk.design_ref = 'DESIGN.md section 5 C14'
     chk.level = 'other'
-    chk.explanation = ('compare_version proved against the numeric-order clause with _version_tuple by contract; '
-                       '_version_tuple itself only by a bounded run-time contract check (string split/int reasoning is beyond the solvers)')
-    chk.units = c14_version.units()
+    chk.explanation = ('compare_version proved against the numeric-order clause with _version_tuple seen through its contract; '
+                       '_version_tuple proved against that contract for dotted-decimal strings of 1..4 components (unbounded numerals); '
+                       'its None result for non-dotted strings and the regex capture model are bounded / assumed')
+    chk.units = c14_version.units() + c14_version.vt_units()
     chk.stubs = c14_version.stubs()
     chk.customs = [custom_crosscheck, custom_vt_bounded, custom_cmp_bounded]
     chk.assumptions = ['version strings are ASCII and contain no newline (banners are sanitised to printable ASCII before Software.parse)',
